@@ -331,6 +331,7 @@ func main() {
 		stTwf.Distribution[jo]++
 		if tailLines[i] != tailImpl[i] {
 			stTwf.Distribution["pass-rewrote-a-call"]++
+			stTwf.Distribution["pass-rewrote-a-call:"+cf+","+jo]++
 			if cf == "closure-free" && jo == "jumps-only" {
 				stTwf.Distribution["pass-rewrote-a-call:covered-by-theorem"]++
 			}
